@@ -225,3 +225,8 @@ def obligations(tier, seed):
         return ["A NOP", " LDA #1", " ORG %s" % t2, "B NOP", " RTS"]
     obs.append(make_d("code-before-org", code_before_org, _later_org, "NOP / LDA #1 / ORG o2 / NOP / RTS"))
     return obs
+
+
+def gates(tier, seed):
+    from .gates import assembler_gates
+    return assembler_gates(tier, seed)
